@@ -3,7 +3,7 @@ from .common import *
 from refinterp import *
 FIELDS = ('out', 'vars', 'cls')
 RULE = 'structured programs rich in reads, assignments, first definitions and EXIST/NOTEXIST probes at every block level, early exits after assigning; distinct texts with an assignment inside a block'
-W = dict(emit=4, assign=7, ifchain=3, repeat=2.5, whil=1.5, brk=1.5, func=1.5, call=2.5, ret=0.6, prnt=0.1, exist=3)
+W = dict(emit=4, assign=7, ifchain=3, repeat=2.5, whil=1.5, brk=1.5, func=2.5, call=3.5, ret=0.6, prnt=0.1, exist=3, dead_call_p=0.3)
 VALS = [Lit(0), Lit(1), Lit(True), Lit(False), Lit(''), Lit('s'), Lit(2), Lit('1'), Lit(10)]
 
 
@@ -38,6 +38,34 @@ def generate(g, tier):
         text, rd = render_ast(prog, g.units())
         exp = expect_of(prog, rd)
         cases.append(dict(op='compile', src=dict(text=text), meta=dict(family='dies', exp=list(exp[:4]))))
+    # what one block created is not there for the NEXT block of the same parent either: a later sibling IF, the next loop
+    # iteration, a second call of the enclosing function (variables and functions alike)
+    def blockof(kind, inner):
+        if kind == 'if': return [IfChain([(Lit(True), inner)], None, [[]])]
+        if kind == 'else': return [IfChain([(Lit(False), [Pass()])], inner, [[]])]
+        if kind == 'repeat': return [Repeat(Lit(1), None, inner)]
+        return [While('sw%d' % r.randint(0, 99), Lit(True), inner + [Break()])]
+    for k1 in ('if', 'else', 'repeat', 'while'):
+        for k2 in ('if', 'else', 'repeat', 'while'):
+            for what in ('func', 'var'):
+                mk = [FuncDef('g', [], [Emit('from-g')]), Call('g', [])] if what == 'func' else [Assign('made', Lit(7)), Emit('m', Var('made'))]
+                use = [Call('g', [])] if what == 'func' else [Exist('made', neg=True), Emit('second')]
+                for wrap in (None, 'func', 'loop'):
+                    core = blockof(k1, mk) + [Emit('mid')] + blockof(k2, use) + [Emit('end')]
+                    if wrap == 'func': prog = [FuncDef('outerf', [], core), Call('outerf', [])]
+                    elif wrap == 'loop': prog = [Repeat(Lit(1), None, core)]
+                    else: prog = core
+                    text, rd = render_ast(prog, g.units())
+                    cases.append(dict(op='compile', src=dict(text=text), meta=dict(family='sibling', exp=list(expect_of(prog, rd)[:4]))))
+    for what in ('func', 'var'):
+        mk = [FuncDef('g', [], [Emit('from-g')])] if what == 'func' else [Assign('made', Lit(7))]
+        use = [Call('g', [])] if what == 'func' else [Exist('made', neg=True), Emit('fresh')]
+        # next iteration / second call: the use comes first, so only a leak from the previous round could satisfy it
+        for prog in ([Repeat(Lit(2), 'i', [IfChain([(Bin('==', Var('i'), Lit(1)), use)], None, [[]]), IfChain([(Lit(True), mk)], None, [[]])])],
+                     [FuncDef('twice', [], [IfChain([(Lit(True), use)], None, [[]])] if what == 'var' else [IfChain([(Lit(False), use)], None, [[]]), IfChain([(Lit(True), mk)], None, [[]])]), Call('twice', []), Call('twice', [])],
+                     [While('w', Bin('<', Var('w'), Lit(2)), [IfChain([(Bin('==', Var('w'), Lit(1)), use)], None, [[]]), IfChain([(Lit(True), mk)], None, [[]])])]):
+            text, rd = render_ast(prog, g.units())
+            cases.append(dict(op='compile', src=dict(text=text), meta=dict(family='next-round', exp=list(expect_of(prog, rd)[:4]))))
     # the same discipline inside a file pulled in with START / STARTENV (blocks of an imported file)
     from astgen import AstGen
     for _ in range(count(tier, 150, 1500)):
